@@ -7,6 +7,7 @@ import Driver.Equiv
 import Driver.Sat
 import Driver.Dyn
 import Crusta.Model.Graph
+import Driver.Cli
 
 open Crusta Driver
 
@@ -279,6 +280,7 @@ def main : IO Unit := do
       | "sat" => runSat c.lines
       | "read" => runRead c.lines
       | "write" => runWrite c.lines
+      | "cli" => runCli c.lines
       | f => [s!"verdict BAD unknown family {f}"]
     for l in out do stdout.putStrLn l
     stdout.putStrLn "end"
